@@ -239,10 +239,17 @@ def run_case(case, acc):
             except Exception:
                 pass
     moved_ref = False
+    unstable_flex1 = _flex1_near_ties(data0, k) if mode == "scale" and "CFF " in ref else {}
     for li, loc in enumerate(_locs(ref, rnd)):
         hb0.set_location(loc)
         hb1.set_location(loc)
         for name in names:
+            if name in unstable_flex1 and (not integer_k or unstable_flex1[name]):
+                # flex1 takes its last operand as dx or dy depending on whether |sum dx| > |sum dy| of the five deltas before
+                # it; here the two sums are closer than the scaler's operand-by-operand rounding can keep apart, so which
+                # curve the scaled program draws is not determined by the original (no rounding scheme can preserve a tie)
+                acc.exclude("scale:flex1-decision-within-rounding-of-a-tie")
+                continue
             g0, g1 = ref.getGlyphID(name), gid1[name]
             tol = 0.0 if loc is None else 1e-3
             adv_tol = tol
@@ -364,6 +371,16 @@ def run_case(case, acc):
     except Exception as e:
         acc.fail_exc("%s-output-unreadable" % mode, e, case)
         g1 = None
+    if len(set(order0)) == len(order0) and any("." in n and n.rsplit(".", 1)[0] in order0 and n.rsplit(".", 1)[1].isdigit() for n in order0):
+        # glyph names the library had to make unique on load (A, A.1, A.2 for a post table that says A three times) are
+        # numbered by position, so after a renumbering they name other glyphs: nothing to key a comparison on
+        try:
+            raw = [hb0.font.get_glyph_name(i) for i in range(len(order0))]
+        except Exception:
+            raw = list(order0)
+        if len(set(raw)) != len(raw):
+            acc.exclude("glyph-names-not-unique-in-the-font(by-name-tables-not-compared)")
+            g1 = None
     if g1 is not None:
         for tag in sorted(g0):
             if mode == "scale" and tag in ("vmtx", "VORG", "kern"):
@@ -418,6 +435,46 @@ def _comp_depth(font, name, seen=0):
         d = max(d, cd + 1)
         tr = tr or ctr or hasattr(c, "transform")
     return d, tr
+
+
+def _flex1_near_ties(data, k):
+    """{glyph name: has fractional flex1 operands} for the glyphs of a CFF font with a flex1 whose |sum dx| and |sum dy| differ
+    by no more than the ten roundings of the scaled operands can add up to"""
+    from fontTools.ttLib import TTFont
+
+    out = {}
+    try:
+        f = TTFont(io.BytesIO(data), lazy=False)
+        cff = f["CFF "].cff
+        cff.desubroutinize()
+        cs = cff[cff.fontNames[0]].CharStrings
+        for name in f.getGlyphOrder():
+            c = cs[name]
+            c.decompile()
+            nums = []
+            for t in c.program:
+                if isinstance(t, str):
+                    if t == "flex1" and len(nums) >= 11:
+                        a = nums[-11:]
+                        dx, dy = sum(a[0:10:2]), sum(a[1:10:2])
+                        if abs(abs(dx) - abs(dy)) * k <= 5.0:
+                            out[name] = out.get(name, False) or any(float(v) != int(v) for v in a)
+                    nums = []
+                elif not isinstance(t, (bytes, list)):
+                    nums.append(t)
+        # accent building: a glyph composed of such glyphs draws their outlines
+        from fontTools.encodings.StandardEncoding import StandardEncoding
+
+        for name in f.getGlyphOrder():
+            p = cs[name].program
+            if len(p) >= 5 and p[-1] == "endchar" and all(not isinstance(t, (str, bytes, list)) for t in p[-5:-1]):
+                for code in p[-3:-1]:
+                    part = StandardEncoding[int(code)] if 0 <= int(code) < 256 else None
+                    if part in out:
+                        out[name] = out.get(name, False) or out[part]
+    except Exception:
+        return {}
+    return out
 
 
 def _comp_budget(font, name, seen=0):
